@@ -32,7 +32,7 @@ _STRING_CONSTS = {
 
 _SAFE_METHODS = {
     str: {"lower", "upper", "translate", "join", "startswith", "endswith", "strip", "rstrip", "lstrip", "replace", "split", "encode", "format", "title", "capitalize"},
-    bytes: {"lower", "upper", "translate", "join", "decode", "strip", "rstrip", "startswith", "endswith"},
+    bytes: {"lower", "upper", "translate", "join", "decode", "strip", "rstrip", "lstrip", "startswith", "endswith", "count", "find", "isalpha", "replace", "split"},
     dict: {"get", "keys", "values", "items"},
     tuple: {"index", "count"},
     list: {"index", "count"},
